@@ -1452,6 +1452,11 @@ def high_index_limit_stream(start_id=21000):
         ops.append('ddec %d 1 %s' % (d, hx(int_octets(i, 7, 0x80))))
         ops.append('dget %d %d' % (d, i)); ops.append('tget %d %d' % (d, i))
     ops.append('tsearch %d %s -' % (d, hx(b'h000'))); ops.append('tsearch %d %s -' % (d, hx(b'h100')))
+    # ... then shrunk to a small non-zero size, to one entry, and to zero (in-band and through the HeaderTable setter)
+    for u in (5000, 100, 36, 35, 0, 16384):
+        ops.append('ddec %d 1 %s' % (d, hx(int_octets(u, 5, 0x20))))
+        ops.append('tmax %d %d' % (d, u))
+        ops.append('ddec %d 1 be' % d)
     return ops
 
 
@@ -1894,4 +1899,102 @@ def power_length_conn_stream(start_id=31000, full=False):
             else:
                 ops.append('eenc %d 1 %s:%s:%d' % (i, hx(b'k%d' % (j % 5)), hx(x), 1 if j % 7 == 6 else 0))
             ops.append('pipe %d 1 %d' % (i, i))
+    return ops
+
+
+
+# ====================================================================================================
+# round-5 additions
+# ====================================================================================================
+def zero_carry_huffman_strings(n=34000):
+    """long strings whose code, cut at ANY octet position that is a multiple of 8, leaves 1..7 pending bits that are
+    all zero (j six-bit symbols, then '0' = 00000 throughout), and the mirror image with pending bits that are all one
+    as far as the code allows; a chunked encoder that loses or mis-merges its carry shows on these at every chunk size"""
+    out = []
+    six = b' %-./34'                     # six-bit codes
+    for j in range(1, 8):
+        out.append(six[:j] + b'0' * n)
+    out.append(b'0' * 7 + b'1' * n)     # 00001 repeated: pending bits 0..., 1 at varying offsets
+    out.append(b' ' + b'\x00' * (n // 3))     # 13-bit codes of mostly ones
+    return out
+
+
+def static_entry_limit_stream(start_id=32000):
+    """each of the 61 static entries referenced under a list limit of exactly its size, one less, and k times under
+    k*size and k*size-1; as an indexed field and as an indexed-name literal with an empty value"""
+    from refmodel import STATIC
+    ops = []
+    d = start_id
+    for i, (n, v) in enumerate(STATIC, start=1):
+        sz = 32 + len(n) + len(v)
+        for k in (1, 7):
+            for lim in (k * sz, k * sz - 1):
+                d += 1
+                ops.append('dnew %d %d' % (d, lim))
+                ops.append('ddec %d %d %s' % (d, i % 2, hx(int_octets(i, 7, 0x80) * k)))
+        d += 1
+        ops.append('dnew %d %d' % (d, 32 + len(n) - 1))
+        ops.append('ddec %d 1 %s' % (d, hx(int_octets(i, 4, 0x00) + b'\x00')))
+        ops.append('dlimit %d %d' % (d, 32 + len(n)))
+        ops.append('ddec %d 1 %s' % (d, hx(int_octets(i, 4, 0x10) + b'\x00')))
+    return ops
+
+
+def updates_then_never_indexed_stream(start_id=33000):
+    """blocks that OPEN with 1..3 table-size updates and then carry never-indexed, plain and indexed fields in every
+    order, in text mode and in raw mode (the class of each returned tuple)"""
+    import itertools
+    ops = []
+    d = start_id
+    reps = {'N': b'\x10\x03key\x05value', 'P': b'\x00\x01p\x01q', 'I': b'\x40\x01i\x01j', 'X': b'\x82', 'M': b'\x1f\x08\x03tok'}
+    for raw in (0, 1):
+        for nupd in (0, 1, 2, 3):
+            for order in itertools.permutations('NPIXM', 3):
+                d += 1
+                ops.append('dnew %d' % d)
+                upd = [b'\x3f\xe1\x1f', b'\x20', b'\x3f\x45'][:nupd]
+                ops.append('ddec %d %d %s' % (d, raw, hx(b''.join(upd) + b''.join(reps[c] for c in order))))
+                ops.append('ddec %d %d %s' % (d, raw, hx(b''.join(reps[c] for c in order))))
+    return ops
+
+
+def name_index_boundary_stream(start_id=34000):
+    """an Encoder with ~300 live entries (16 KiB table); fields whose NAME matches only an old entry, so that the name
+    index falls on 62, 63, 64 (6-bit prefix), 15/16 via the static table, 126..129, 142..144, 190..192, 254..256, 300:
+    sensitive (4-bit prefix, 0x10), and ordinary (6-bit prefix, 0x40), Huffman on and off; piped to a decoder"""
+    ops = []
+    e = start_id
+    for huff in (0, 1):
+        e += 1
+        ops.append('enew %d' % e); ops.append('dnew %d 10000000' % e); ops.append('dallow %d 16384' % e)
+        ops.append('esize %d 16384' % e)
+        cnt = 300
+        names = [b'k%03d' % i for i in range(cnt)]
+        for i in range(0, cnt, 30):
+            ops.append('eenc %d %d %s' % (e, huff, ' '.join('%s:%s:0' % (hx(n), hx(b'v')) for n in names[i:i + 30])))
+            ops.append('pipe %d 1 %d' % (e, e))
+        # entry names[j] now sits at index 62 + (cnt - 1 - j)
+        targets = [62, 63, 64, 76, 77, 78, 126, 127, 128, 129, 142, 143, 144, 190, 191, 192, 254, 255, 256, 300, 361]
+        for t in targets:                        # sensitive: nothing is inserted, the indices stay put
+            j = cnt - 1 - (t - 62)
+            ops.append('eenc %d %d %s:%s:1' % (e, huff, hx(names[j]), hx(b'secret-%d' % t)))
+            ops.append('pipe %d 0 %d' % (e, e))
+        for t in targets:                        # exact matches at the same indices
+            j = cnt - 1 - (t - 62)
+            ops.append('eenc %d %d %s:%s:1 %s:%s:0' % (e, huff, hx(names[j]), hx(b'v'), hx(names[j]), hx(b'v')))
+            ops.append('pipe %d 1 %d' % (e, e))
+        shift = 0
+        for t in targets:                        # ordinary: each one inserts, so aim one lower every time
+            j = cnt - 1 - (t - 62) + shift
+            if 0 <= j < cnt:
+                ops.append('eenc %d %d %s:%s:0' % (e, huff, hx(names[j]), hx(b'other-%d' % t)))
+                ops.append('pipe %d 1 %d' % (e, e))
+                shift += 1
+    # static names at 15/16 (4-bit prefix boundary) and 61, sensitive and not
+    e += 1
+    ops.append('enew %d' % e); ops.append('dnew %d' % e)
+    for nm in (b'accept-charset', b'accept-encoding', b'accept-language', b'www-authenticate', b'via', b':authority'):
+        for sens in (1, 0):
+            ops.append('eenc %d 0 %s:%s:%d' % (e, hx(nm), hx(b'zzz'), sens))
+            ops.append('pipe %d 1 %d' % (e, e))
     return ops
